@@ -23,6 +23,7 @@ def currentCfg : Cfg := {
   cloneRegsDeep := true,
   cloneRegsFiltered := true,
   cloneRegsByValue := true,
-  extKeepRegs := true
+  extKeepRegs := true,
+  extLeafCopied := false
 }
 end PyGql.Generated.HeapCfg
